@@ -91,9 +91,20 @@ def info(name):
 CRATE_USES = {"actix-server": {"actix-rt"}, "actix-tls": {"actix-rt"}}
 
 
+def declared_assumptions(name):
+    """`//@assumes unit=X fns=a::b,c::d`: this unit takes a PRECONDITION for granted that unit X establishes as the
+    postcondition of the named functions (e.g. `ServerBuilder::ready()`, assumed by run_sync, is what bind / listen ensure)"""
+    out = {}
+    for m in re.finditer(r"^//@assumes\s+unit=(\S+)\s+fns=(\S+)", _text(name), re.M):
+        out.setdefault(m.group(1), set()).update(x for x in m.group(2).split(",") if x)
+    return out
+
+
 def depends(name):
     crate, _, st = info(name)
     out = {}
+    for y, labels in declared_assumptions(name).items():
+        out.setdefault(y, set()).update(labels)
     for y in all_units():
         if y == name:
             continue
@@ -102,7 +113,7 @@ def depends(name):
             continue
         common = st & set(v for v in ext2.values() if v[0] is not None)
         if common:
-            out[y] = common
+            out.setdefault(y, set()).update(common)
     return out
 
 
@@ -147,7 +158,7 @@ if __name__ == "__main__":
     for u in (sys.argv[1:] or all_units()):
         d = depends(u)
         for y in sorted(d):
-            print(u, "->", y, sorted(d[y])[:8])
+            print(u, "->", y, sorted(map(str, d[y]))[:8])
     cfg = json.load(open(os.path.join(ROOT, "checks.json")))["properties"]
     for pid, pc in cfg.items():
         own = sorted({u.split("@")[0] for u in pc.get("verus", [])})
